@@ -131,6 +131,16 @@ CHECKS["C14"] = dict(
    note="OS processes are stand-ins (is_alive controlled by the sequence); the workers' own code and real signals are not run.",
    design="6/C14", technique=TECH)
 
+CHECKS["C20"] = dict(
+   text=("Monitor.tla: the queue page as its sequence of pops / loads / pushes (with failing loads): GetIsStutter exhaustive for "
+         "queues <= 4, limits <= 3, any set of missing records (the pinned algorithm is kept as an expected counterexample). "
+         "Every GET route of the real monitor (34, enumerated from its OpenAPI description) is requested in-process with "
+         "generated path / query parameters against five system states (empty, small, queue longer than the page limit, purged "
+         "state backend, purged orchestrator) on both families; a full read-out of the monitored app before and after every "
+         "request is compared by TLC."),
+   note="In-process requests (starlette TestClient); read-out through public getters, queue content by draining and restoring.",
+   design="6/C20", technique=TECH)
+
 NOT_YET = {}
 
 def main() -> None:
